@@ -670,8 +670,14 @@ func readUnion(tr *tokenReader) (Union, error) {
 			if !tr.Next() {
 				return union, readError(tr.nextToken, "union definition ended early")
 			}
-			skipEndOfLineComments(tr)
-			optNewline(tr)
+			// when the member's own reader already consumed its close curly, this
+			// advance read what ends the curly's line - the newline, or a line
+			// comment - and what follows is the next line, whose comments document
+			// the next member
+			if k := tr.Token().kind; k != tokenKindNewline && k != tokenKindLineComment {
+				skipEndOfLineComments(tr)
+				optNewline(tr)
+			}
 
 		case tokenKindOpenSquare:
 			if nextIsDeprecated {
